@@ -49,6 +49,11 @@ EFFECTS = {
     "0 + poly(x, 2)": ([((), ("poly(x, 2)",))], True),
     "C(s)": ([(("C(s)",), ())], False),
     "0 + T(s)": ([(("T(s)",), ())], True),
+    # the removal as a later additive item (defect D24: only the leading one used to count)
+    "s - 1": ([(("s",), ())], True),
+    "x + s + 0": ([((), ("x",)), (("s",), ())], True),
+    "s*h - 1": ([(("s",), ()), (("h",), ()), (("s", "h"), ())], True),
+    "1 + x:s + -1": ([(("s",), ("x",))], True),
 }
 CATCOL = {"s": "s", "h": "h", "C(s)": "s", "T(s)": "s"}
 # grouping expressions: text -> list of factor terms (tuples of factor atoms)
